@@ -158,6 +158,14 @@ def _count_expr(fn: ast.FunctionDef) -> None:
     body = _strip_doc(fn.body)
     if ast.unparse(body[-1]) != "return df.collect()[0][0]":
         raise Untranslatable(ob, "count() does not return the first cell of the first row")
+    # the counting statement is the collected statement frozen into a CTE with the select list replaced -- and nothing else:
+    # any further rewrite of it (dropping / editing clauses anywhere in the tree) is not understood
+    stmts = [ast.unparse(x) for x in body if not (isinstance(x, ast.If) and ast.unparse(x.test) == "not self.session._has_connection"
+                                                   and all(isinstance(y, ast.Raise) for y in x.body) and not x.orelse)]
+    want = ["df = self._convert_leaf_to_cte()", "df = self.copy(expression=df.expression.select('count(*)', append=False))", "return df.collect()[0][0]"]
+    if stmts != want:
+        extra = [x for x in stmts if x not in want]
+        raise Untranslatable(ob, "count() does more to the statement than wrap it and select count(*): " + "; ".join(x[:80] for x in (extra or stmts)[:3]))
 
 
 def gen_actions(repo: str) -> str:
